@@ -46,6 +46,11 @@ pub struct TreeSpec {
     /// consists of separately formed pairs linked by cross-group edges (many groups)
     #[serde(default)]
     pub pairs_first: bool,
+    /// > 0: nodes are taken in runs of `segment` (<= 15) consecutive indices; the first edge
+    /// inside every run is bound first (one group per run), then all other edges in index
+    /// order — a deep tree built that way keeps every group within 16 members
+    #[serde(default)]
+    pub segment: usize,
 }
 
 impl TreeSpec {
